@@ -365,9 +365,11 @@ func ParseNameAddrPVal(h HdrT, buf []byte, offs int, pfrom *PFromBody) (int, Err
 				if pfrom.state == fbParamName {
 					pfrom.state = fbNewParam
 					pfrom.pend = i
+					setFromParamVal(buf, pfrom) // param w/o value (e.g. ;lr)
 				} else if pfrom.state == fbPossibleParamName {
 					pfrom.state = fbNewPossibleParam
 					pfrom.pend = i
+					setFromParamVal(buf, pfrom) // param w/o value (e.g. ;lr)
 				}
 			default:
 				if pfrom.state == fbNewParam {
@@ -398,6 +400,7 @@ func ParseNameAddrPVal(h HdrT, buf []byte, offs int, pfrom *PFromBody) (int, Err
 				} else {
 					pfrom.state = fbNewPossibleParam
 				}
+				setFromParamVal(buf, pfrom) // param w/o value (e.g. ;lr ;)
 			case ',':
 				if multipleValsOk(h) {
 					// whitespace between the param name and ',' (e.g.
@@ -569,6 +572,14 @@ endOfHdr:
 		pfrom.V.Extend(i)
 	case fbNewParam, fbParamNameEnd, fbNewPossibleParam,
 		fbPossibleParamNameEnd, fbParamName, fbPossibleParamName:
+		// last param has no value (e.g. ;lr)
+		switch pfrom.state {
+		case fbParamName, fbPossibleParamName:
+			pfrom.pend = i
+			setFromParamVal(buf, pfrom)
+		case fbParamNameEnd, fbPossibleParamNameEnd:
+			setFromParamVal(buf, pfrom)
+		}
 		// uri or possible uri already found, make sure the params end is set
 		//pfrom.Params.Set(int(pfrom.Params.Offs), i)
 		if pfrom.Params.Offs != 0 {
